@@ -132,6 +132,13 @@ CHECKS = {
             'triangulation, the effect of a value-less item listed first or last; in cartesian worlds the feature is additionally compared with Objects::Surface built directly from the documented node list.',
             'Polygons, point sets and values as listed; spherical polygon edges are not probed. Two known findings: value listed at a corner with a zero coordinate (pinned by reference outputs), near-collinear value points on a diagonal in spherical coordinates (third-party triangulator).',
             'DESIGN.md section 3 C11'),
+    'C06': ('exploration', 'E1',
+            'bounded exhaustive enumeration of straight-trench slab / fault worlds (all dip pairs of a 5-value set for one segment in 6 trench directions x 2 dip sides; all continuous-dip tables of two | three segments; dip-jump tables; thickness / truncation shapes; depth windows) x a 7 x 22 x 21 probe lattice, against a long-double planar construction written from the statement',
+            'For every world the public distance-to-plane query and the membership (tag) of every probe are compared with an independent construction of the surface in the vertical plane perpendicular to the trench: straight pieces and circular arcs '
+            'chained from the trench at min depth, perpendicular feet by bracketing and bisection, signed distance and arc length at the nearest foot; membership = top truncation <= distance <= thickness (fault: half thickness either side), '
+            '0 <= along <= total length, foot between the trench ends, min depth <= depth <= max depth. A linear temperature model decodes the distance the feature itself used. The two entry points are called in both orders and the distance query is repeated.',
+            'Cartesian worlds only (in spherical worlds the construction depends on the depth method). Probes within 10 tolerances of any limit, with two nearly equidistant feet, or in the footless wedge of a dip jump are skipped and counted. One known finding (foot exactly on a segment joint).',
+            'DESIGN.md section 3 C06'),
 }
 NOT_YET = {}
 
